@@ -553,7 +553,9 @@ class GCXS(SparseArray, NDArrayOperatorsMixin):
         elif format == "csc":
             ret = CSC(self)
         elif format == "gcxs":
-            compressed_axes = kwargs.pop("compressed_axes", self.compressed_axes)
+            compressed_axes = kwargs.pop("compressed_axes", None)
+            if compressed_axes is None:
+                compressed_axes = self.compressed_axes
             return self.change_compressed_axes(compressed_axes)
 
         if len(kwargs) != 0:
